@@ -14,5 +14,6 @@ INVARIANT OneSideBreaks
 INVARIANT CertAlgebra
 INVARIANT Signs
 INVARIANT EraShape
+INVARIANT PoolHistory
 INVARIANT FlagIrrelevant
 INVARIANT FlagTwin
